@@ -27,6 +27,7 @@ structure ProcEng where
   qAcked : List ((String Ã— String) Ã— Int) := []
   runRules : List (String Ã— List (String Ã— String)) := []
   lossless : Bool := true      -- no failed reply, no inactivity time-out so far
+  tainted : List String := []  -- runs that were sent a corrupt message: their own requests are not compared (C10)
 deriving Inhabited
 
 def natList (l : List Nat) : String := String.intercalate "," (l.map toString)
@@ -59,7 +60,8 @@ def canonPayloadOf (r : Req) : String :=
 def canonReq (r : Req) : String :=
   s!"{r.cat.cmd}|{if r.run == "" then "-" else r.run}|{r.license}|{r.collector}|{if r.hdr == "" then "-" else r.hdr}|{canonPayloadOf r}"
 
-def canonReqs (rs : List Req) : String :=
+def canonReqsT (tainted : List String) (rs : List Req) : String :=
+  let rs := rs.filter (fun r => !tainted.contains r.run)
   if rs.isEmpty then "-" else String.intercalate ";" (sortStr (rs.map canonReq))
 
 def kvOr (t : Tokens) (k d : String) : String := (kvGet t k).getD d
@@ -287,7 +289,7 @@ def procStepCore (st : ProcEng) (t : Tokens) (_impl : Option String) : ProcEng Ã
         | some r => some r
         | none => none
       let (s, rep, reqs) := processAppInfo st.s run d.2
-      ({ st with s := s }, { model := s!"reply={replyStr rep} reqs={canonReqs reqs}" })
+      ({ st with s := s }, { model := s!"reply={replyStr rep} reqs={canonReqsT st.tainted reqs}" })
   | "txn" =>
     let run := tokStr t 2
     let txn := parseTxn t
@@ -310,7 +312,7 @@ def procStepCore (st : ProcEng) (t : Tokens) (_impl : Option String) : ProcEng Ã
     | none => (st, { model := "no-such-run" })
     | some rm =>
       let (s, reqs) := doHarvest st.s run rm mask
-      ({ st with s := s }, { model := s!"reqs={canonReqs reqs}" })
+      ({ st with s := s }, { model := s!"reqs={canonReqsT st.tainted reqs}" })
   | "reply" =>
     let owner := tokStr t 2
     let cmd := tokStr t 3
@@ -322,7 +324,7 @@ def procStepCore (st : ProcEng) (t : Tokens) (_impl : Option String) : ProcEng Ã
       match r.cat with
       | .preconnect =>
         let (s, reqs) := preconnectReply st.s r o (kvOr t "host" "collector-x.example")
-        ({ st with s := s }, { model := s!"reqs={canonReqs reqs}" })
+        ({ st with s := s }, { model := s!"reqs={canonReqsT st.tainted reqs}" })
       | .connect =>
         let agentLog := match r.payload with
           | .con a _ => a.agentLog
@@ -334,18 +336,20 @@ def procStepCore (st : ProcEng) (t : Tokens) (_impl : Option String) : ProcEng Ã
         ({ st with s := s }, { model := "reqs=-" })
       | _ =>
         let (s, reqs) := harvestReply st.s r o
-        ({ st with s := s }, { model := s!"reqs={canonReqs reqs}" })
+        ({ st with s := s }, { model := s!"reqs={canonReqsT st.tainted reqs}" })
+  | "taint" => ({ st with tainted := tokStr t 2 :: st.tainted }, { model := "ok" })
+  | "mut" => (st, { model := "ok" })
   | "advance" =>
     ({ st with s := { st.s with now := st.s.now + (tokNat t 2 : Int) * 1000000000 } }, { model := "ok" })
   | "state" =>
     let apps := sortStr (st.s.apps.map (fun p => s!"{p.1}:{stateStr p.2.state}"))
     let runs := sortStr (st.s.runs.map (fun p => s!"{p.1}:{p.2.app}"))
-    (st, { model := s!"apps={String.intercalate "," apps} runs={String.intercalate "," runs} parked={st.s.inflight.length}" })
+    (st, { model := s!"apps={String.intercalate "," apps} runs={String.intercalate "," runs} parked={(st.s.inflight.filter (fun r => !st.tainted.contains r.run)).length}" })
   | "cleanexit" =>
     let order := sortStr (st.s.runs.map (Â·.1))
     let (s, reqs, ret) := cleanExit st.s (fun _ => .ok) order
     let reqs := reqs.filter (fun r => r.cat != .dataUsage)
-    ({ st with s := s }, { model := s!"returned={if ret then 1 else 0} reqs={canonReqs reqs}" })
+    ({ st with s := s }, { model := s!"returned={if ret then 1 else 0} reqs={canonReqsT st.tainted reqs}" })
   | _ => (st, { model := "bad-op" })
 
 
@@ -362,7 +366,7 @@ def procStep (st0 : ProcEng) (t : Tokens) (impl : Option String) : ProcEng Ã— St
   | none => (st, out)
   | some line =>
     -- bookkeeping that follows the ops
-    let st := if op == "init" then { st with evicted := [], noRetry := [], sends := [], runInfo := [], terminal := [], needConnect := [], lastAttempt := [], qOffered := [], qAcked := [], runRules := [], lossless := true } else st
+    let st := if op == "init" then { st with evicted := [], noRetry := [], sends := [], runInfo := [], terminal := [], needConnect := [], lastAttempt := [], qOffered := [], qAcked := [], runRules := [], lossless := true, tainted := [] } else st
     let o : Outcome := parseOutcome (tokStr t 5)
     let (st, f0) : ProcEng Ã— List String := match picked with
       | none => (st, [])
@@ -443,7 +447,7 @@ def procStep (st0 : ProcEng) (t : Tokens) (impl : Option String) : ProcEng Ã— St
         -- runs whose application has been inactive for longer than the time-out are dropped, not flushed (C03)
         let liveRuns := (st0.s.runs.filter (fun p => match getApp st0.s p.2.app with
           | some a => !(st0.s.appTimeout > 0 && st0.s.now - a.lastActivity â‰¥ st0.s.appTimeout)
-          | none => false)).map (Â·.1)
+          | none => false)).map (Â·.1) |>.filter (fun r => !st.tainted.contains r)
         let missing := st.offered.filter (fun (k : String Ã— String Ã— Nat) => liveRuns.contains k.1 && !st.evicted.contains k && !st.acked.contains k &&
                                                     !parked.contains k && !finalIds.contains k)
         let finalQ : List ((String Ã— String) Ã— Int) := reqs.foldl (fun l (q : ImplReq) =>
@@ -459,4 +463,6 @@ def procStep (st0 : ProcEng) (t : Tokens) (impl : Option String) : ProcEng Ã— St
         (if missing.isEmpty then [] else [s!"C01 proc: accepted data was neither acknowledged, nor still in flight, nor in the final flush: {missing.take 3 |>.map (fun (k : String Ã— String Ã— Nat) => k.1 ++ "/" ++ k.2.1 ++ "/" ++ toString k.2.2)}"]) ++
         (if (kvGet (tokenize line) "returned") == some "1" then [] else ["C11 shutdown: the final flush did not return"])
       else []
-    (st, { out with specFails := out.specFails ++ f0 ++ f1 ++ f2 ++ f3 })
+    let f4 := if line == "processor-crashed" then ["C10 containment: a message from an agent terminated the processor goroutine (the worker exits, every buffered harvest is lost)"]
+      else if line == "stuck" then ["C10 containment: the processor (or the listener) is wedged"] else []
+    (st, { out with specFails := f4 ++ out.specFails ++ f0 ++ f1 ++ f2 ++ f3 })
